@@ -1,0 +1,159 @@
+//! Child module of `dns_parser` (feature `verif-hooks`): read-only, plain-data views of the
+//! crate-private message and record types. Delegation only.
+
+use super::{
+    DnsAddress, DnsHostInfo, DnsIncoming, DnsNSec, DnsPointer, DnsQuestion, DnsRecordExt, DnsSrv,
+    DnsTxt,
+};
+use std::net::{IpAddr, Ipv4Addr, Ipv6Addr};
+
+#[derive(Clone, Debug, PartialEq, Eq)]
+pub enum RDataView {
+    A(Ipv4Addr),
+    Aaaa(Ipv6Addr),
+    /// PTR and CNAME.
+    Ptr(String),
+    Srv {
+        priority: u16,
+        weight: u16,
+        port: u16,
+        host: String,
+    },
+    Txt(Vec<u8>),
+    Hinfo {
+        cpu: String,
+        os: String,
+    },
+    Nsec {
+        next: String,
+        bitmap: Vec<u8>,
+    },
+    Other,
+}
+
+#[derive(Clone, Debug, PartialEq, Eq)]
+pub struct RecordView {
+    /// The name as it would be written on the wire (renamed name if any).
+    pub name: String,
+    pub rtype: u16,
+    pub class: u16,
+    pub cache_flush: bool,
+    pub ttl: u32,
+    pub rdata: RDataView,
+    pub created: u64,
+    pub expires: u64,
+    pub refresh: u64,
+    pub if_name: Option<String>,
+    pub if_index: Option<u32>,
+}
+
+#[derive(Clone, Debug, PartialEq, Eq)]
+pub struct QuestionView {
+    pub name: String,
+    pub qtype: u16,
+    pub class: u16,
+    /// Top bit of the class field (unicast-response bit in questions).
+    pub top_bit: bool,
+}
+
+#[derive(Clone, Debug, PartialEq, Eq)]
+pub struct MsgView {
+    pub id: u16,
+    pub flags: u16,
+    pub num_questions: u16,
+    pub num_answers: u16,
+    pub num_authorities: u16,
+    pub num_additionals: u16,
+    pub questions: Vec<QuestionView>,
+    pub answers: Vec<RecordView>,
+    pub authorities: Vec<RecordView>,
+    pub additionals: Vec<RecordView>,
+}
+
+pub(crate) fn view_question(q: &DnsQuestion) -> QuestionView {
+    QuestionView {
+        name: q.entry.name.clone(),
+        qtype: q.entry.ty as u16,
+        class: q.entry.class,
+        top_bit: q.entry.cache_flush,
+    }
+}
+
+pub(crate) fn view_record(r: &dyn DnsRecordExt) -> RecordView {
+    let rec = r.get_record();
+    let mut if_name = None;
+    let mut if_index = None;
+    let any = r.any();
+    let rdata = if let Some(a) = any.downcast_ref::<DnsAddress>() {
+        if_name = Some(a.interface_id.name.clone());
+        if_index = Some(a.interface_id.index);
+        match a.address().to_ip_addr() {
+            IpAddr::V4(v4) => RDataView::A(v4),
+            IpAddr::V6(v6) => RDataView::Aaaa(v6),
+        }
+    } else if let Some(p) = any.downcast_ref::<DnsPointer>() {
+        RDataView::Ptr(p.alias().to_string())
+    } else if let Some(s) = any.downcast_ref::<DnsSrv>() {
+        RDataView::Srv {
+            priority: s.priority,
+            weight: s.weight,
+            port: s.port(),
+            host: s.host().to_string(),
+        }
+    } else if let Some(t) = any.downcast_ref::<DnsTxt>() {
+        RDataView::Txt(t.text().to_vec())
+    } else if let Some(h) = any.downcast_ref::<DnsHostInfo>() {
+        RDataView::Hinfo {
+            cpu: h.cpu.clone(),
+            os: h.os.clone(),
+        }
+    } else if let Some(n) = any.downcast_ref::<DnsNSec>() {
+        RDataView::Nsec {
+            next: n.next_domain.clone(),
+            bitmap: n.type_bitmap.clone(),
+        }
+    } else {
+        RDataView::Other
+    };
+    RecordView {
+        name: rec.get_name().to_string(),
+        rtype: rec.entry.ty as u16,
+        class: rec.entry.class,
+        cache_flush: rec.entry.cache_flush,
+        ttl: rec.get_ttl(),
+        rdata,
+        created: rec.get_created(),
+        expires: rec.get_expire_time(),
+        refresh: rec.get_refresh_time(),
+        if_name,
+        if_index,
+    }
+}
+
+pub(crate) fn view_msg(m: &DnsIncoming) -> MsgView {
+    MsgView {
+        id: m.id,
+        flags: m.flags,
+        num_questions: m.num_questions,
+        num_answers: m.num_answers,
+        num_authorities: m.num_authorities,
+        num_additionals: m.num_additionals,
+        questions: m.questions.iter().map(view_question).collect(),
+        answers: m.answers.iter().map(|r| view_record(r.as_ref())).collect(),
+        authorities: m
+            .authorities
+            .iter()
+            .map(|r| view_record(r.as_ref()))
+            .collect(),
+        additionals: m
+            .additional
+            .iter()
+            .map(|r| view_record(r.as_ref()))
+            .collect(),
+    }
+}
+
+/// The remaining-TTL arithmetic used when a record is written with a time.
+pub(crate) fn remaining_ttl(r: &dyn DnsRecordExt, now: u64) -> u32 {
+    r.get_record().get_remaining_ttl(now)
+}
